@@ -358,7 +358,12 @@ def run_program(ctx, rnd, mode, typed, info):
         tname = None
         if term is not None:
             tname, targs = term
-            s = getattr(s, tname)(*targs)
+            try:
+                s = getattr(s, tname)(*targs)
+            except Exception as e:
+                ctx.case(src + str(leaf) + tname, True)
+                ctx.violation(f"terminal-raised:{type(e).__name__}", f"{tname}{targs!r} raised {type(e).__name__}: {str(e)[:200]}", witness)
+                continue
         try:
             s.value()
         except Exception as e:
